@@ -69,3 +69,11 @@ ASSUMPTIONS = {
     "A-range": "machine arithmetic is checked, not idealised: every +,-,*,<<,as is proved free of overflow under the stated input range: non-negative costs, |max_cost| and charged total below 2^60, clock readings below 2^40 s (year 36812), metric stripe sums below 2^64. TTLs are NOT restricted: every Duration up to Duration::MAX is covered (the deadline saturates; finding F14 came from an earlier restriction here). Inputs outside the range (negative or astronomically large costs) are not decided.",
     "A-z3": "Z3 (Verus back end) and CBMC/CaDiCaL (Kani back end) are trusted.",
 }
+
+# A clause tagged with the key serves the listed properties as well: their statements are *about* the quantity the key property pins
+# down.  C16 fixes what every entry is charged; C01 (total <= max_cost), C07 (room / eviction decisions) and C04 (nothing lost while
+# everything fits) are statements over exactly those charges.
+IMPLIES = {
+    "C16": ("C01", "C07", "C04"),
+}
+
